@@ -5,6 +5,7 @@ go 1.13
 require (
 	github.com/lyraproj/issue v0.0.0-20190606092846-e082d6813d15
 	github.com/lyraproj/pcore v0.0.0
+	github.com/lyraproj/semver v0.0.0-20181213164306-02ecea2cd6a2
 )
 
 replace github.com/lyraproj/pcore => /repo
